@@ -56,7 +56,8 @@ Section Transfers.
     '(cur, _) <- get_nft_on_destination E dst key (tok_nonce t) ;;
     check_froze_and_pause dst key cur rae ;;;
     (match t_meta cur with
-     | Some cm => m <- meta_of t ;; guard (beqb (md_hash cm) (md_hash m)) EWrongNFTOnDestination
+     | Some cm => m <- lift_opt (t_meta t) EWrongNFTOnDestination ;;   (* F11 repair: an incoming entry without metadata is rejected, not dereferenced *)
+                  guard (beqb (md_hash cm) (md_hash m)) EWrongNFTOnDestination
      | None => ret tt
      end) ;;;
     v <- val_of t ;; cv <- val_of cur ;;
